@@ -61,6 +61,7 @@ class MockCA:
             authz_status={}, authz_perm=None, chall_perm=None, eab_keys={}, require_eab=False,
             delay=None, validate=None, tls=None, seed=0, tos=True, orders_field=True,
             cert_san_override=None, wildcard_field=True, port=0, bind="127.0.0.1", host=None,
+            pem_style=None,        # how the certificate chain is written: None (LF, final newline) | "crlf" | "nofinal" | "blank_between" | "text_before"
             unknown_members=False, # every object carries members RFC 8555 does not define (clients must ignore them)
             retry_after=None,      # value of a Retry-After header on the answers to authorization / order polls (RFC 8555 7.5.1)
         )
@@ -835,7 +836,8 @@ class MockCA:
         c = self.certs.get(obj)
         if c is None or self.orders[c["order"]]["acct"] != v["acct"]:
             return self._problem("unauthorized", 403, "no such certificate")
-        body = c["pem"].encode()
+        body = self._styled(c["pem"]).encode()
+        genuine_body = body
         if fault == "ok:nonpem":
             body = b"this is not a certificate\n"
         elif fault == "ok:truncated":
@@ -852,8 +854,21 @@ class MockCA:
                                  dns=["mixed-up.example.org"], ips=[])
             body = other["cert_pem"].encode()
         ev["detail"] = {"cert": obj, "order": c["order"], "sha": hashlib.sha256(body).hexdigest(), "len": len(body),
-                        "spki": c["spki"], "genuine": body == c["pem"].encode()}
+                        "spki": c["spki"], "genuine": body == genuine_body}
         return 200, {"Content-Type": "application/pem-certificate-chain", "Replay-Nonce": self.new_nonce()}, body
+
+    def _styled(self, pem):
+        """The same chain, written in another way RFC 7468 / RFC 8555 9.1 allow: the client has to store what it was sent."""
+        st = self.o["pem_style"]
+        if st == "crlf":
+            return pem.replace("\r\n", "\n").replace("\n", "\r\n")
+        if st == "nofinal":
+            return pem.rstrip("\n")
+        if st == "blank_between":
+            return pem.replace("-----END CERTIFICATE-----\n-----BEGIN", "-----END CERTIFICATE-----\n\n-----BEGIN")
+        if st == "text_before":
+            return "subject=verif test chain, issued by the mock CA\n" + pem
+        return pem
 
     def _do_orders(self, v, hdr, pj, obj, fault, ev):
         return self._json(200, {"orders": []})
